@@ -484,6 +484,17 @@ pub fn run(out: &mut Out, seed: u64, thorough: bool, replay: Option<&str>) {
             if ok && !got.iter().any(|r| r.contains("seq=3 v=6d757461626c65")) && writer != reader && !net.holders(writer, &mt, reader).is_empty() {
                 net.out.violation("C01", "put-then-get-miss", format!("put_mutable returned Ok on node {writer} but get_mutable on node {reader} yielded {:?}", got));
             }
+            // the same sequence number again with another value: BEP44 accepts it (the seq is not lower),
+            // so what the second Ok promises is what a later reader must be handed
+            let c2 = net.api(writer, put_mut_call(9, 3, b"mutable-2", Some(b"salt"), None));
+            net.settle(20 * SEC, 10 * MS);
+            let ok2 = net.results(writer, c2).first().map(|r| r.contains(":ok:")).unwrap_or(false);
+            let g2 = net.api(reader, format!("get_mut k={} salt={} seq=none", hex(key_from_seed(9).verifying_key().as_bytes()), hex(b"salt")));
+            net.settle(20 * SEC, 10 * MS);
+            let got2 = net.results(reader, g2);
+            if ok && ok2 && !got2.iter().any(|r| r.contains("seq=3 v=6d757461626c652d32")) && writer != reader && !net.holders(writer, &mt, reader).is_empty() {
+                net.out.violation("C01", "put-then-get-miss", format!("put_mutable of another value with the same seq returned Ok on node {writer} but get_mutable on node {reader} yielded {:?}", got2));
+            }
             let ih = Id::from_bytes(rng.id20()).expect("id");
             let c = net.api(writer, format!("announce ih={} port=7000", hex(ih.as_bytes())));
             net.settle(20 * SEC, 10 * MS);
